@@ -1,6 +1,7 @@
 package p2pke
 
 import (
+	"bytes"
 	"fmt"
 	"io"
 	"math"
@@ -107,8 +108,17 @@ func (s *Session) Deliver(out []byte, incoming []byte, now time.Time) (bool, []b
 	nonce := msg.GetNonce()
 	switch nonce {
 	case 0, 1, 2, 3:
+		if !s.isInit && nonce == nonceInitHello && s.hsIndex > 0 && !bytes.Equal(msg, s.msgCache[0]) {
+			// an InitHello other than the one this session was created from belongs to another handshake.
+			return false, nil, errors.New("InitHello not for this session")
+		}
 		if err := s.readHandshake(msg); err != nil {
 			return false, nil, errors.Wrapf(err, "processing handshake message")
+		}
+		if uint8(nonce)+1 != s.hsIndex {
+			// Only the message immediately preceding our current handshake message is answered (retries).
+			// Answering anything else lets two sessions of different handshakes echo each other forever.
+			return false, nil, nil
 		}
 		return false, s.writeHandshake(out), nil
 	default:
@@ -237,6 +247,7 @@ func (s *Session) readHandshake(msg Message) error {
 		}
 		s.remoteKey = res.RemoteKey
 		s.initHelloTime = res.Timestamp
+		s.msgCache[0] = append([]byte{}, msg...)
 		s.msgCache[1] = res.RespHello
 		s.cipherOut, s.cipherIn = res.CipherOut, res.CipherIn
 		s.hsIndex = 1
